@@ -1,8 +1,9 @@
 (* line protocol (fields separated by '|', strings = decimal code points separated by spaces, "-" = None):
      D|enc|force|c1;c2;...;last   ->  <one-shot decode of the concatenation> # <result of every incremental call up to the
-                                       first one that raises, separated by " ; "> (final=True on the last chunk)
+                                       first one that raises, separated by space-semicolon-space> (final=True on the last chunk)
      E|enc|c1;...;last            ->  same for encode
-     R|enc|force|c1;...;last      ->  as D, for the codec table whose hypotheses are proved in Coq (CodecInstances.r_*)
+     R|enc|force|c1;...;last      ->  as D, for the codec table whose hypotheses are proved in Coq (CodecInstances: r_init, r_step, r_shot)
+     W|enc|c1;...;cn              ->  StreamWriter: the result of every write (CodecConcrete.c_sw_trace)
      S|final|bytes                ->  detectencoding_str        : CRASH | NONE x | SOME cps x
      U|final|text                 ->  detectencoding_unicode
      F|final|enc|text             ->  _fixencoding              : NONE | SOME cps
@@ -37,6 +38,7 @@ let () =
           let (chunks, last) = split_last (chunks_in cs) in
           let enc = opt_in enc and force = (force = "1") in
           res_out (r_decode (List.concat chunks @ last) enc force) ^ " # " ^ trace_out (r_dec_trace enc force chunks last)
+        | ["W"; enc; cs] -> trace_out (c_sw_trace (opt_in enc) (chunks_in cs))
         | ["E"; enc; cs] ->
           let (chunks, last) = split_last (chunks_in cs) in
           let enc = opt_in enc in
